@@ -235,6 +235,67 @@ pub enum Ctx {
     Lone,
     ListFirst,
     ListLast,
+    /// the same three positions with the value forwarded by a `macro_rules!` `$e:expr`, i.e.
+    /// wrapped in an invisible (`Delimiter::None`) group
+    GroupLone,
+    GroupFirst,
+    GroupLast,
+}
+
+impl Ctx {
+    fn grouped(self) -> bool {
+        matches!(self, Ctx::GroupLone | Ctx::GroupFirst | Ctx::GroupLast)
+    }
+    fn base(self) -> Ctx {
+        match self {
+            Ctx::GroupLone => Ctx::Lone,
+            Ctx::GroupFirst => Ctx::ListFirst,
+            Ctx::GroupLast => Ctx::ListLast,
+            c => c,
+        }
+    }
+}
+
+/// Wraps the value of the first `v = <value>` found (at any nesting level) in an invisible group
+/// whose span covers the value tokens. Returns whether a value was wrapped.
+fn group_value(ts: proc_macro2::TokenStream, done: &mut bool) -> proc_macro2::TokenStream {
+    use proc_macro2::{Delimiter, Group, TokenTree};
+    let toks: Vec<TokenTree> = ts.into_iter().collect();
+    let mut out: Vec<TokenTree> = vec![];
+    let mut i = 0;
+    while i < toks.len() {
+        let is_v = matches!(&toks[i], TokenTree::Ident(id) if id == "v");
+        let eq_next = matches!(toks.get(i + 1), Some(TokenTree::Punct(p)) if p.as_char() == '=' && p.spacing() == proc_macro2::Spacing::Alone);
+        if !*done && is_v && eq_next {
+            out.push(toks[i].clone());
+            out.push(toks[i + 1].clone());
+            let mut j = i + 2;
+            let mut inner: Vec<TokenTree> = vec![];
+            while j < toks.len() && !matches!(&toks[j], TokenTree::Punct(p) if p.as_char() == ',') {
+                inner.push(toks[j].clone());
+                j += 1;
+            }
+            if !inner.is_empty() {
+                let span = inner[0].span().join(inner[inner.len() - 1].span()).unwrap_or_else(|| inner[0].span());
+                let mut g = Group::new(Delimiter::None, inner.into_iter().collect());
+                g.set_span(span);
+                out.push(TokenTree::Group(g));
+                *done = true;
+            }
+            i = j;
+            continue;
+        }
+        match &toks[i] {
+            TokenTree::Group(g) if !*done && g.delimiter() != Delimiter::None => {
+                let mut ng = Group::new(g.delimiter(), group_value(g.stream(), done));
+                ng.set_span(g.span());
+                out.push(TokenTree::Group(ng));
+            }
+            t => out.push(t.clone()),
+        }
+        i += 1;
+    }
+    out.into_iter().collect()
 }
 
 #[derive(Debug, Clone)]
@@ -244,18 +305,37 @@ pub enum Obs {
     Panic(String),
     /// the source text is not an attribute syn accepts (generator problem, not a verdict)
     NoParse(String),
+    /// grouped context asked for an item that has no `= value` part
+    NoValue,
 }
 
 /// Builds the attribute, extracts the meta item for `v`, converts. `form` is the full item
 /// text, e.g. `v = 5`, `v`, `v(1)`.
 fn run<T: Target>(form: &str, ctx: Ctx) -> Obs {
     use syn::spanned::Spanned;
+    let grouped = ctx.grouped();
+    let ctx = ctx.base();
     let src = match ctx {
         Ctx::Lone => format!("#[{form}] struct S;"),
         Ctx::ListFirst => format!("#[w({form}, zz = 1)] struct S;"),
-        Ctx::ListLast => format!("#[w(zz = 1, {form})] struct S;"),
+        _ => format!("#[w(zz = 1, {form})] struct S;"),
     };
-    let di: syn::DeriveInput = match syn::parse_str(&src) {
+    let parsed: syn::Result<syn::DeriveInput> = if grouped {
+        // the ungrouped text must be an attribute in the first place
+        if let Err(e) = syn::parse_str::<syn::DeriveInput>(&src) {
+            return Obs::NoParse(e.to_string());
+        }
+        let ts: proc_macro2::TokenStream = src.parse().unwrap();
+        let mut done = false;
+        let ts = group_value(ts, &mut done);
+        if !done {
+            return Obs::NoValue;
+        }
+        syn::parse2(ts)
+    } else {
+        syn::parse_str(&src)
+    };
+    let di: syn::DeriveInput = match parsed {
         Ok(d) => d,
         Err(e) => return Obs::NoParse(e.to_string()),
     };
@@ -435,6 +515,9 @@ pub fn check_case(ti: &TargetInfo, lit: &Lit, ctx: Ctx, t: &mut Tally) {
         })
     };
     match (&obs, &exp) {
+        (Obs::NoValue, _) => {
+            t.evaluations -= 1;
+        }
         (Obs::NoParse(e), _) => {
             // the generator only emits well-formed attributes
             t.hit("generator_unparseable");
@@ -616,7 +699,7 @@ pub fn main(args: &Args) {
     }
     let mut rep = Report::new("C11", args.tier, "exploration");
     let thorough = args.tier == vrt::Tier::Thorough;
-    let ctxs = [Ctx::Lone, Ctx::ListFirst, Ctx::ListLast];
+    let ctxs = [Ctx::Lone, Ctx::ListFirst, Ctx::ListLast, Ctx::GroupLone, Ctx::GroupFirst, Ctx::GroupLast];
 
     // (1) the dense range, bare and quoted, every context
     let range_targets: Vec<&TargetInfo> = tis.iter().filter(|t| t.kind == Kind::Int).take(if thorough { 24 } else { 6 }).collect();
@@ -629,7 +712,7 @@ pub fn main(args: &Args) {
             let mut n = -range + sh;
             while n <= range {
                 let s = n.to_string();
-                for ctx in ctxs {
+                for ctx in [Ctx::Lone, Ctx::ListFirst, Ctx::ListLast, Ctx::GroupFirst] {
                     check_case(ti, &Lit::BareInt(s.clone()), ctx, &mut t);
                 }
                 check_case(ti, &Lit::Quoted(s.clone()), Ctx::Lone, &mut t);
@@ -685,6 +768,21 @@ pub fn main(args: &Args) {
         Lit::Other(" = (5)".into()),
         Lit::Other(" = -x".into()),
         Lit::Other(" = !true".into()),
+        // an operator other than negation in front of a number is not a number
+        Lit::Other(" = !5".into()),
+        Lit::Other(" = *5".into()),
+        Lit::Other(" = &5".into()),
+        Lit::Other(" = !2.5".into()),
+        Lit::Other(" = *2.5".into()),
+        Lit::Other(" = !0".into()),
+        Lit::Other(" = -(5)".into()),
+        Lit::Other(" = !-5".into()),
+        Lit::Other(" = -!5".into()),
+        Lit::Other(" = -true".into()),
+        Lit::Other(" = -'c'".into()),
+        Lit::Other(" = -\"5\"".into()),
+        Lit::Other(" = 5 as u8".into()),
+        Lit::Other(" = 5 - 0".into()),
         Lit::BareInt("5".into()),
         Lit::BareInt("-5".into()),
         Lit::BareInt("0".into()),
@@ -725,7 +823,7 @@ pub fn main(args: &Args) {
     rep.absorb(tl);
 
     rep.rule = format!(
-        "targets: 24 integer/NonZero types, f32, f64, bool, char, String, PathBuf; value placed alone, first and last in a list. (1) every integer in [-{range}, {range}] bare and quoted for {} integer targets; (2) {} boundary magnitudes (2^k +- 2 up to 2^130, long digit strings) x sign x ~60 spellings (radix 2/8/10/16, underscores, 12 suffixes, leading zeros) for all 24; (3) {} other literals/forms (odd quoted strings, float grid incl. f32 rounding midpoints +- 1e-21, wrong kinds, word/list forms) for all 30 targets. Oracle: quoted = str::parse::<T>; bare int = independent bignum evaluation then str::parse::<T>; bare float = text minus underscores/suffix through str::parse. Non-trivial = a case the oracle says must be rejected (and was, with a span inside the item).",
+        "targets: 24 integer/NonZero types, f32, f64, bool, char, String, PathBuf; value placed alone, first and last in a list, each also wrapped in an invisible group (a macro-forwarded `$e:expr`). (1) every integer in [-{range}, {range}] bare and quoted for {} integer targets; (2) {} boundary magnitudes (2^k +- 2 up to 2^130, long digit strings) x sign x ~60 spellings (radix 2/8/10/16, underscores, 12 suffixes, leading zeros) for all 24; (3) {} other literals/forms (odd quoted strings, float grid incl. f32 rounding midpoints +- 1e-21, wrong kinds, word/list forms) for all 30 targets. Oracle: quoted = str::parse::<T>; bare int = independent bignum evaluation then str::parse::<T>; bare float = text minus underscores/suffix through str::parse. Non-trivial = a case the oracle says must be rejected (and was, with a span inside the item).",
         range_targets.len(),
         mags.len(),
         misc.len()
